@@ -238,6 +238,31 @@ def run(ctx) -> None:
                             {"item": it, "plain": plain1, "github": out1,
                              "how": "build a refurb.error.Error subclass instance with the given prefix/code/line/column/msg/filename and call refurb.main.format_errors([e], Settings(format='github', quiet=True)) and format_errors([e], Settings(quiet=True))"},
                         )
+            # ---- the same diagnostic rendered again after the working directory changed (several runs in one process): the
+            # annotation's file is relative to the directory in force NOW, the plain rendering does not change at all
+            import os as _os
+
+            base_ = Path.cwd()
+            (base_ / "pkg" / "inner").mkdir(parents=True, exist_ok=True)
+            absf = str((base_ / "pkg" / "inner" / "mod.py").resolve())
+            it_abs = {"k": "diag", "file": absf, "line": 3, "col": 4, "prefix": "FURB", "code": 123, "msg": "m"}
+            seen_gh = []
+            try:
+                for cwd_, want_rel in ((base_, "pkg/inner/mod.py"), (base_ / "pkg", "inner/mod.py"), (base_ / "pkg" / "inner", "mod.py"), (base_, "pkg/inner/mod.py")):
+                    _os.chdir(cwd_)
+                    g_ = format_errors(to_errors([it_abs]), Settings(format="github", quiet=True))
+                    p_ = format_errors(to_errors([it_abs]), Settings(quiet=True))
+                    seen_gh.append((str(cwd_.relative_to(base_)), g_))
+                    res.bump("github_after_chdir")
+                    if f",file={want_rel}::" not in g_ or not p_.startswith(absf + ":3:5 "):
+                        res.violate(
+                            f"after the working directory changed to {cwd_.relative_to(base_) or '.'} the GitHub annotation names `{g_.split(',file=')[-1].split('::')[0]}` for {absf} (relative to the directory in force: {want_rel})",
+                            {"kind": "github-file-stale-after-chdir"},
+                            {"sequence": seen_gh, "plain": p_, "how": "in ONE process: os.chdir(BASE); refurb.main.format_errors([Error(filename=BASE/pkg/inner/mod.py, ...)], Settings(format='github')); os.chdir(BASE/pkg); again; os.chdir(BASE/pkg/inner); again"},
+                        )
+                        break
+            finally:
+                _os.chdir(base_)
             # ---- the hint rule on the implementation's own function: present iff at least one diagnostic and not quiet —
             # whatever else is in the list (mypy/refurb text lines, --debug dumps) and in whatever position
             for kind, its, _param in [m for m in meta if m[0] == "format" and m[2][0] == "plain"][: 150 if ctx.quick else 2000]:
